@@ -2,7 +2,7 @@
 import ast
 import re
 
-from ..astutil import is_noise, format_template, table_lookup, catches_everything, dotted, effective, handler_names, method_call
+from ..astutil import symbolic_table, is_noise, format_template, table_lookup, catches_everything, dotted, effective, handler_names, method_call
 from ..cfg import canon_test, cfg_of, fact_key, norm, walk_own
 from ..consteval import Scope, fold, fold_in
 from ..mutate import B, M
@@ -170,6 +170,10 @@ def check(ctx):
         v = n.ast.value
         if isinstance(v, ast.Call) and isinstance(v.func, ast.Attribute) and v.func.attr == 'get' and len(v.args) == 2 and norm(v.args[0]) == 'parsed_path[1]':
             t = g.resolve_local(n, v.func.value)
+            if not isinstance(t, ast.Dict):
+                st_ = symbolic_table(m.mod(RD), v.func.value)                 # a module- or class-level constant table
+                if st_ is not None:
+                    t = ast.Dict(keys=[k_ for k_, _ in st_], values=[v_ for _, v_ in st_])
             if isinstance(t, ast.Dict):
                 lookups.append((n, t, v.args[1]))
     if lookups:
